@@ -323,7 +323,7 @@ def _decide_rule(run, ad, rule, key, K, NW):
                     raise AssertionError(f"concrete mismatch {label}: {impl} vs {orc}")
                 continue
             it, ot = S.const(impl).t, S.const(orc).t
-            r, m = run.prove(f"{key}:{label}", it == ot, assume, timeout_ms=30000,
+            r, m = run.prove(f"{key}:{label}", it == ot, assume, timeout_ms=30000, nl=True,
                              sample={"rule": rule["name"], "cell": label, "impl": str(it)[:160], "oracle": str(ot)[:160]})
             n_cells += 1
             if r == "unsat":
